@@ -107,7 +107,21 @@ fn history(em: &mut Emit, rng: &mut Rng, steps: usize, hid: u64) {
         let depth = 1 + rng.below(5) as u32;
         let src = {
             let mut g = Gen { rng, vars: tys.clone(), idfns: vec!["idf".to_string()], wrap_pct: 8, boundary_pct: 20, macros: true };
-            if g.rng.chance(1, 12) {
+            if g.rng.chance(1, 16) {
+                // call shapes that differ only in a long constant (anything remembered per call
+                // site or per thread between executions shows up as the earlier constant)
+                let lits = ["'aaaaaaaaaaaaaaaaaaaaaaaaaaaaaaaaaaaaaaaaaaaaaaaa'", "'aaaaaaaaaaaaaaaaaaaaaaaaaaaaaaaaaaaaaaaaaaaaaaab'",
+                            "'héllo wörld, héllo wörld, héllo wörld!'", "'0123456789012345678901234567890123456789'",
+                            "''", "'a'"];
+                let (a, b) = (*g.rng.pick(&lits), *g.rng.pick(&lits));
+                match g.rng.below(5) {
+                    0 => format!("vs0.contains({})", a),
+                    1 => format!("{}.contains({})", a, b),
+                    2 => format!("{}.startsWith({})", a, b),
+                    3 => format!("({} + vs0).endsWith({})", a, b),
+                    _ => format!("[{}, {}].map(x, x.size())", a, b),
+                }
+            } else if g.rng.chance(1, 12) {
                 // library calls with state of their own to misuse: regular expressions, valid and
                 // invalid, repeated within one history (the model leaves non-literal patterns
                 // uninterpreted; the repetition law below does not)
@@ -168,6 +182,25 @@ fn history(em: &mut Emit, rng: &mut Rng, steps: usize, hid: u64) {
         let again = guarded(std::panic::AssertUnwindSafe(|| exec_wire(&prog, &ctx)));
         if crate::canon_local(&again) != crate::canon_local(&imp) {
             bad.push(format!("repetition differs: {} vs {}", imp, again));
+        }
+        // an execution does not depend on what its thread executed before: a thread that has
+        // executed nothing, the program compiled again and an equal context give the same result
+        {
+            let (spec2, src2) = (spec.clone(), src.clone());
+            let other = std::thread::spawn(move || {
+                guarded(std::panic::AssertUnwindSafe(move || {
+                    let ctx = spec2.build();
+                    match Program::compile(&src2) {
+                        Ok(p) => exec_wire(&p, &ctx),
+                        Err(_) => "(reject)".to_string(),
+                    }
+                }))
+            })
+            .join()
+            .unwrap_or_else(|_| "(crash)".to_string());
+            if crate::canon_local(&other) != crate::canon_local(&imp) {
+                bad.push(format!("a fresh thread gives a different result: {} vs {}", imp, other));
+            }
         }
         // an equal context built afresh gives an equal result
         if step % 10 == 0 {
